@@ -1,4 +1,4 @@
 SPECIFICATION Spec
-CONSTANTS MaxBulk = 3 MaxFrac = 4 MaxCrash = 2 LoaderOrdered = FALSE
+CONSTANTS MaxBulk = 3 MaxFrac = 3 MaxCrash = 2 MaxPending = 1 LoaderOrdered = FALSE
 INVARIANTS TypeOK AckedServed ServedAcked NoDuplicates NoResurrection CreationOrder ActiveIsNewest
 PROPERTIES OldestFirst
